@@ -192,12 +192,28 @@ pub const DECLS: &[(&str, &str)] = &[
   ("declare-global", "declare global { interface Window { g@N: number } }\nexport const c@N: number = 1;\n"),
   ("merged-fn-namespace", "export function m@N(): void {}\nexport namespace m@N { export type MT = @R; }\n"),
   ("merged-class-interface", "export class M@N { a: number = 1; }\nexport interface M@N { b: @R }\n"),
+  // qualified names that continue past the first member: `typeof f.prop.sub`, `typeof v.prop`, `Merged.T`
+  ("expando-fn-qualified-past-property", "function conf@N(opts: @R): void {}\nconf@N.defaults = { verbose: false };\nexport const verbose@N: typeof conf@N.defaults.verbose = false;\n"),
+  ("expando-fn-qualified-property", "function conf@N(opts: @R): void {}\nconf@N.defaults = { verbose: false };\nexport const dflt@N: typeof conf@N.defaults = { verbose: true };\n"),
+  ("qualified-typeof-private-var", "const cfg@N: @R = null as any;\nexport const v@N: typeof cfg@N.prop = null as any;\n"),
+  ("qualified-typeof-private-var-deep", "const cfg@N: { inner: @R } = null as any;\nexport let w@N: typeof cfg@N.inner.prop;\n"),
+  ("merged-class-namespace-qualified", "class Base@N { b: number = 1; }\nclass Foo@N extends Base@N { x: @R = null as any; }\nnamespace Foo@N { export type T = number; }\nexport type UseFoo@N = Foo@N.T;\n"),
+  ("merged-fn-namespace-qualified", "function mf@N(a: @R): void {}\nnamespace mf@N { export type T = number; }\nexport type UseMf@N = mf@N.T;\n"),
+  ("merged-enum-namespace-qualified", "enum Me@N { A = 1 }\nnamespace Me@N { export type T = @R; }\nexport type UseMe@N = Me@N.T;\n"),
+  ("class-static-computed-members", "export class CSt@N { static [Symbol.iterator](): Iterator<@R> { return null as any; } static [Symbol.asyncIterator]: @R = null as any; static get [Symbol.toStringTag](): string { return \"x\"; } }\n"),
+  // template literals with a call inside an expression that is kept
+  ("leav-template-call-in-object", "function mk@N(): number { return 1; }\nexport const c@N = { id: `item-${mk@N()}`, n: 1 };\n"),
+  ("leav-template-call-in-array", "function mk@N(): number { return 1; }\nexport const c@N = [`x${mk@N()}`, \"y\"];\n"),
+  ("leav-template-new-in-class-prop", "export class CT@N { label = { t: `${new Date()}` }; static tags = [`t${Date.now()}`]; }\n"),
+  ("leav-template-call-in-default-param", "function mk@N(): number { return 1; }\nexport function ft@N(a = { k: `v${mk@N()}` }): void {}\n"),
   ("unused-private", "type Unused@N = @R;\nfunction unusedFn@N(): void {}\nclass UnusedC@N {}\n"),
 ];
 
 pub const B_BASE: &str = "export interface BT { b: number }\nexport type BU = string;\nexport const bv: number = 1;\nexport class BC { x: number = 1; }\nexport namespace BN { export type Y = number; }\nexport function helper(): number { return 1; }\nexport default class DefB { d: number = 1; }\nconst unusedInB = 1;\n";
 
 pub const SLOT0_ONLY: &[&str] = &[
+  "expando-fn-qualified-past-property", "expando-fn-qualified-property", "qualified-typeof-private-var", "qualified-typeof-private-var-deep", "merged-class-namespace-qualified", "merged-fn-namespace-qualified", "merged-enum-namespace-qualified", "class-static-computed-members",
+  "leav-template-call-in-object", "leav-template-call-in-array", "leav-template-new-in-class-prop", "leav-template-call-in-default-param",
   "leav-bin-call-left", "leav-bin-call-right", "leav-cond-call-test", "leav-cond-call-cons", "leav-cond-call-alt", "leav-member-computed-call", "leav-member-of-call-object", "leav-object-spread-first", "leav-object-spread-last", "leav-array-spread-first", "leav-seq-then-literal", "leav-unary-of-call", "leav-as-const-with-call", "leav-nested-object-call-first",
   "class-expression", "class-expression-named-extends", "index-signature", "constructor-overloads", "enum-referencing-private",
   "declare-module-augmentation", "type-predicates", "this-return-and-rest", "es-private-and-static-block", "accessor-pair",
